@@ -139,7 +139,19 @@ CHECKS.update({
             "No simulated scheduler: the quantifier is over call orderings, which are generated and replayable; the child process is real (flock semantics come from the kernel).", "3/C35"),
 })
 
-PENDING = {}  # property -> reason while not yet implemented
+CHECKS.update({
+    "C25": ("exploration", "deterministic simulation: Stream producers as scheduled actors racing committers + single-snapshot oracle from the reference model",
+            "Stream.Orchestrate runs (NumGo 1-4, Prefix, ChooseKey) over data spread over several tables while other clients commit multi-key transactions between producer start-ups and range hand-outs; the emitted multiset must equal the model's ToList at ONE timestamp between call and return, each (key,version) once, Send calls never overlapping.",
+            "Any single snapshot timestamp between the call and the return of Orchestrate is accepted. SinceTs and custom KeyToList are not generated.", "3/C25"),
+    "C24": ("exploration", "deterministic simulation: backup chains taken under concurrent scheduled commits, restored by the real Load and compared with the reference model",
+            "Full and incremental Backup chains (each since the version the previous returned) with commits between and during backups; the chain is Loaded into a fresh database which must equal the source (value, user meta, expiry, version) as of a single timestamp between start and end of the last backup.",
+            "NumVersionsToKeep=1 restore comparison (visible state); the restored database runs outside the scheduler after the run has quiesced.", "3/C24"),
+})
+
+PENDING = {
+    "C23": "not claimed: the encryption-at-rest scenario (plaintext scan of every file, (keyID, IV) uniqueness, wrong-key refusal) is not implemented in this revision; encryption is only a swarm option of the other scenarios",
+    "C26": "not claimed: the StreamWriter scenario is not implemented in this revision",
+}
 
 def main():
     props = [json.loads(l) for l in open("/verif/properties.jsonl")]
